@@ -43,6 +43,10 @@ DECIDING = {
     "service_state_at_teardown_over": "task already finished when teardown reaches it",
     "service_own_teardown_checked": "task's own context torn down before teardown proceeds",
     "crashes_injected": "exceptions escaping a service task",
+    "services_started_during_teardown": "service tasks started by a teardown callback while the context was closing",
+    "registrations_while_a_service_was_starting": "another task registered a resource while start_service_task() was still waiting for the task to start",
+    "action_form_object": "teardown action given as a callable object",
+    "action_form_partial": "teardown action given as functools.partial",
     "nested_owner": "owner is a nested context",
     "root_owner": "owner is the root context",
 }
